@@ -41,7 +41,7 @@ def run(ctx):
     from harness import degen
     degen.evaluate(ctx, "wellformed")      # deterministic non-transversal corpus (findings K2-*)
     # (a) expressions
-    for it in range(12 if ctx.quick else 1200):
+    for it in range(12 if ctx.quick else 300):
         k = rng.choice([2, 2, 3, 3, 4])
         if it % 3 == 2:
             k = min(k, 3)
@@ -61,7 +61,7 @@ def run(ctx):
         ctx.case("expr-result", (repr(vss), impl.show_expr(e)), nontrivial=impl.kind(R) not in ("Empty", "Whole"))
         check_result(ctx, R, desc)
     # (b) pairs of kinds, every operator + complement kind table
-    for it in range(8 if ctx.quick else 1500):
+    for it in range(8 if ctx.quick else 60):
         ka, kb = rng.choice(shapes.DEFINED), rng.choice(shapes.DEFINED)
         A, da = shapes.make(rng, ka, rng.randint(-4, 4), rng.randint(-4, 4), drv)
         B, db = shapes.make(rng, kb, rng.randint(-4, 4), rng.randint(-4, 4), drv)
@@ -107,8 +107,41 @@ def run(ctx):
             except Exception as ex:
                 ctx.fail("singleton law raised", {"kind": kname, "law": lname}, got=repr(ex)); continue
             ctx.check(R is exp, "singleton law does not give the singleton", {"kind": kname, "law": lname}, type(exp).__name__, impl.kind(R))
+    # singleton laws on objects with a history: S and H = ~S are used while far apart, then moved onto each other in place
+    for it in range(6 if ctx.quick else 150):
+        vs = shapes.rand_simple_vs(rng, 0, 0, R=5)
+        S = shapes.simple(vs)
+        H = shapes.simple([(x + 40, y) for x, y in vs][::-1])      # the complement of S, built 40 units to the right
+        try:
+            with impl.time_limit(120):
+                (S & H, S | H, H in S, S in H, float(S), float(H), S.box(), H.box())      # use them while their boxes are apart
+                H.move(-40, 0)                                                                  # now H is exactly ~S
+                if it % 2 == 0:
+                    S.scale(2, 2); H.scale(2, 2)
+                res = [("S&H", S & H, E), ("S|H", S | H, W), ("S-S", S - S, E), ("S^H", S ^ H, W), ("H&S", H & S, E)]
+        except impl.Timeout:
+            ctx.fail("singleton law did not return (objects with a history)", {"vertices": vs}); continue
+        except Exception as ex:
+            ctx.fail("singleton law raised (objects with a history)", {"vertices": vs}, got=repr(ex)); continue
+        for nm, R, exp in res:
+            ctx.case("singleton-law-history", (tuple(vs), nm))
+            ctx.check(R is exp, "singleton law does not give the singleton (objects with a history)", {"vertices": vs, "law": nm}, type(exp).__name__, impl.kind(R))
+    # nesting four levels deep (a ring inside the hole of a ring inside the hole of …): results must be well formed
+    def sq(h):
+        return [(-h, -h), (h, -h), (h, h), (-h, h)]
+    rings = [shapes.simple(sq(10)) - shapes.simple(sq(9)), shapes.simple(sq(7)) - shapes.simple(sq(6)), shapes.simple(sq(4)) - shapes.simple(sq(3)), shapes.simple(sq(1))]
+    acc = rings[0]
+    for r in rings[1:]:
+        acc = acc | r
+    ctx.case("deep-nesting", "4-rings")
+    check_result(ctx, acc, {"case": "three nested rings and a core"})
+    tokd = "D 4 2 " + core.epoly(sq(10)) + " " + core.epoly(sq(9)[::-1]) + " 2 " + core.epoly(sq(7)) + " " + core.epoly(sq(6)[::-1]) + " 2 " + core.epoly(sq(4)) + " " + core.epoly(sq(3)[::-1]) + " 1 " + core.epoly(sq(1))
+    ctx.check(impl.kind(acc) == "Disjoint" and len(acc.subshapes) == 4 and drv.ask(f"regioneq {core.eshape(acc)} {tokd}") == "ok", "deeply nested rings: wrong grouping or region", {"case": "4 levels"}, None, impl.kind(acc))
+    inv = ~acc
+    check_result(ctx, inv, {"case": "complement of nested rings"})
+    ctx.check(drv.ask(f"compl {tokd} {core.eshape(inv)}") == "ok", "complement of deeply nested rings", {"case": "4 levels"})
     # nested / apart pairs whose results are Empty or the operand
-    for it in range(8 if ctx.quick else 200):
+    for it in range(8 if ctx.quick else 60):
         big = shapes.simple(shapes.rand_simple_vs(rng, 0, 0, R=8))
         small = shapes.simple(shapes.ccw(gen.star_polygon(rng, 4, 1, 0, 0, den=8)))
         far = shapes.simple(shapes.rand_simple_vs(rng, 40, 0, R=5))
